@@ -357,7 +357,7 @@ def _new_stats(case_name):
             "wall_s": 0.0, "items": 0, "errors": [], "suspects": []}
 
 
-def _try_witnesses(case, witnesses, out, seen, why):
+def _try_witnesses(case, witnesses, out, seen, why, opts=None):
     """The symbolic encoding has a gap on this path (a counterexample that does
     not reproduce, or an unsupported operation).  Run the real code on further
     solver models of the path condition: a concrete failure is a genuine,
@@ -378,6 +378,11 @@ def _try_witnesses(case, witnesses, out, seen, why):
             rec["reproduced"] = True
             rec["detail"] = "%s [found on a solver witness of the path after: %s]" % (cv.detail, why[:200])
             out["violations"].append(rec)
+            if opts is not None and opts.get("stop") is not None and cv.key not in opts.get("known_keys", set()):
+                # (a concrete failure is its own replay: it decides the run like any confirmed violation)
+                with opts["stop"].get_lock():
+                    if opts["stop"].value == 0.0:
+                        opts["stop"].value = time.time() + opts.get("stop_grace", 10.0)
 
 
 STOPPED = "stopped: a violation was confirmed, exploration cut short"
@@ -500,9 +505,9 @@ def run_item(case, root, tier, seed, opts, out, donate=None):
                 rec["concrete_outcome"] = "exception: %r" % (e,)
             out["violations"].append(rec)
             if not rec["reproduced"]:
-                _try_witnesses(case, v.alts, out, seen, "counterexample for %r did not reproduce" % v.key)
+                _try_witnesses(case, v.alts, out, seen, "counterexample for %r did not reproduce" % v.key, opts)
         if status.startswith("unsupported") and ctx.abort_witnesses:
-            _try_witnesses(case, ctx.abort_witnesses, out, seen, status)
+            _try_witnesses(case, ctx.abort_witnesses, out, seen, status, opts)
         for text, expected in second_q:
             r = _second_solver(text)
             if r not in ("sat", "unsat"):
